@@ -73,6 +73,9 @@ type Op struct {
 	Pid   int    `json:"pid"`
 	Clean bool   `json:"clean"`
 	Out   *Out   `json:"out"`
+	// rm of an in-flight entry that has not been replayed since the re-initialisation: the specification allows two
+	// outcomes ("noop": ignored; "removed": the entry is gone); this transition follows the named one
+	Early string `json:"early"`
 }
 
 type Post struct {
@@ -682,10 +685,24 @@ func history(t *Trans) string {
 
 type outcome struct {
 	tainted bool
+	branch  bool // the implementation took the other allowed outcome of an early Remove: this transition does not apply
 	diffs   []diff
 	absence bool // a watchdog fired somewhere: confirm by a slow re-execution
 	trace   []string
 }
+
+// otherBranch: the implementation took the other allowed outcome of an early Remove (see Op.Early)
+func otherBranch(op *Op, g *got) bool {
+	if op.Early == "" || g.panicv != "" || g.blocked || len(g.ret) != 0 || len(g.drops) != 0 {
+		return false
+	}
+	if op.Early == "noop" {
+		return g.dQ == -1 && g.dI == -1
+	}
+	return g.dQ == 0 && g.dI == 0
+}
+
+var nBranch int64
 
 func run(t *Trans, wd time.Duration) (o outcome) {
 	r, slow, err := newReal(wd)
@@ -710,6 +727,10 @@ func run(t *Trans, wd time.Duration) (o outcome) {
 		if g.blocked {
 			o.absence = true
 		}
+		if otherBranch(op, &g) {
+			o.branch = true
+			return
+		}
 		if op.Out != nil {
 			for _, d := range compare("", op, op.Out, &g, "") {
 				if d.hard {
@@ -730,6 +751,10 @@ func run(t *Trans, wd time.Duration) (o outcome) {
 	note(&t.Op, &g)
 	if g.blocked {
 		o.absence = true
+	}
+	if otherBranch(&t.Op, &g) {
+		o.branch = true
+		return
 	}
 	ds := compare("", &t.Op, t.Op.Out, &g, qual)
 	o.diffs = append(o.diffs, ds...)
@@ -853,6 +878,10 @@ func one(js []byte) {
 		atomic.AddInt64(&nTainted, 1)
 		return
 	}
+	if o.branch {
+		atomic.AddInt64(&nBranch, 1)
+		return
+	}
 	if o.absence && len(o.diffs) == 0 {
 		rep.Div("harness:watchdog", "a call did not return within the long watchdog and nothing explains it", js, map[string]interface{}{"history": history(&t), "steps": len(t.Pre) + 1})
 		return
@@ -898,6 +927,6 @@ func main() {
 		fmt.Fprintln(os.Stderr, err)
 		os.Exit(2)
 	}
-	rep.Summary(map[string]interface{}{"tainted_prefix": atomic.LoadInt64(&nTainted), "watchdog_retries": atomic.LoadInt64(&nAbsenceRetry),
+	rep.Summary(map[string]interface{}{"tainted_prefix": atomic.LoadInt64(&nTainted), "other_branch": atomic.LoadInt64(&nBranch), "watchdog_retries": atomic.LoadInt64(&nAbsenceRetry),
 		"timing_unconfirmed": atomic.LoadInt64(&nUnconfirmed), "max": *maxQ, "ie": *ieMode, "target": *target, "reinit": *reinit})
 }
